@@ -1,8 +1,9 @@
 """SEMA — oq3_semantics: asg.rs (all of it), syntax_to_semantics.rs (closure-free functions),
 types.rs (re-verified copy), over an opaque, mechanically generated view of the oq3_syntax AST
 (C03, C06, C07, C08, C09, C13)"""
+import os
 import re
-from vlib.unit import Unit
+from vlib.unit import Unit, REPO
 from vlib import genast
 from units import types as types_unit
 
@@ -128,9 +129,9 @@ GHOST_ASSUMES = [
     ('expr_stmt_to_asg_stmt', 'let arg = expr_to_asg_texpr(gphase.arg(), context).unwrap();\n            Some(asg::Stmt::GPhaseCall', 'assume(gphase.sp_arg() is Some); // KF:C03-gphase-no-arg'),
     ('stmt_to_asg_stmt', 'let hw_qubit = q_decl.hardware_qubit().unwrap();', 'assume(q_decl.sp_hardware_qubit() is Some); /* AP:a quantum declaration names a variable or a hardware qubit */'),
     ('stmt_to_asg_stmt', 'let duration =\n                expr_to_asg_texpr(delay_stmt.designator().unwrap().expr(), context).unwrap();', 'assume(delay_stmt.sp_designator()->Some_0.sp_expr() is Some); /* AP:an empty designator `[]` is a syntax error */'),
-    ('stmt_to_asg_stmt', 'with_scope!(context,  ScopeType::Local,\n                        let then_branch', 'assume(if_stmt.sp_true_body_block_or_stmt_ok()); // KF:C03-empty-stmt-body'),
-    ('stmt_to_asg_stmt', 'with_scope!(context,  ScopeType::Local,\n                        let loop_body = block_or_stmt_to_asg_type(while_stmt', 'assume(while_stmt.sp_block_or_stmt_ok()); // KF:C03-empty-stmt-body'),
-    ('stmt_to_asg_stmt', 'with_scope!(context,  ScopeType::Local,\n                        let loop_var_symbol_id', 'assume(for_stmt.sp_block_or_stmt_ok()); // KF:C03-empty-stmt-body'),
+    ('stmt_to_asg_stmt', 'let then_branch = block_or_stmt_to_asg_type(', 'assume(if_stmt.sp_true_body_block_or_stmt_ok()); // KF:C03-empty-stmt-body'),
+    ('stmt_to_asg_stmt', 'let loop_body = block_or_stmt_to_asg_type(while_stmt', 'assume(while_stmt.sp_block_or_stmt_ok()); // KF:C03-empty-stmt-body'),
+    ('stmt_to_asg_stmt', 'let loop_body = block_or_stmt_to_asg_type(for_stmt', 'assume(for_stmt.sp_block_or_stmt_ok()); // KF:C03-empty-stmt-body'),
 ]
 
 
@@ -395,12 +396,13 @@ pub assume_specification<T: Clone, EE: Clone> [<Result<T, EE> as Clone>::clone] 
     for fn in NEWLY:
         zov[fn] = dict(closures=True, spec='ensures grows(*old(context), *final(context)),', loop_ghost='broadcast use sema_lemmas;')
     ITER = lambda it, extra='': 'invariant\n    scoped(*old(context), *context),%s\nensures %s.rest().len() == 0,\ndecreases %s.rest().len(),' % (extra, it, it)
+    ITER_NB = lambda it, extra='': ITER(it, ' same_scopes(*old(context), *context),' + extra)
     NONGLOBAL = 'requires !old(context).global(),      // a nested `include` is diagnosed, never evaluated (the `unreachable!` of stmt_to_asg_stmt)\n'
-    zov['qubit_list_to_asg_texpr'].update(ret='r', props=['C06', 'C03', 'C13'], loops={1: ITER('oq3_it1', '\n    qubit_list is Some, oq3_v1@.len() + oq3_it1.rest().len() == qubit_list->Some_0.sp_gate_operands().len(),')},
+    zov['qubit_list_to_asg_texpr'].update(ret='r', props=['C06', 'C03', 'C13'], loops={1: ITER_NB('oq3_it1', '\n    qubit_list is Some, oq3_v1@.len() + oq3_it1.rest().len() == qubit_list->Some_0.sp_gate_operands().len(),')},
         spec='requires qubit_list is Some,    // the `unwrap` of the body\nensures grows(*old(context), *final(context)), r@.len() == qubit_list->Some_0.sp_gate_operands().len(),     //@C06:operands-keep-count')
-    zov['expression_list_to_asg_texpr'].update(ret='r', props=['C06', 'C03'], loops={1: ITER('oq3_it1', '\n    oq3_v1@.len() + oq3_it1.rest().len() == expression_list.sp_exprs().len(),')},
+    zov['expression_list_to_asg_texpr'].update(ret='r', props=['C06', 'C03'], loops={1: ITER_NB('oq3_it1', '\n    oq3_v1@.len() + oq3_it1.rest().len() == expression_list.sp_exprs().len(),')},
         spec='ensures grows(*old(context), *final(context)), r@.len() == expression_list.sp_exprs().len(),     //@C06:arguments-keep-count')
-    zov['indexed_identifier_to_asg_type'].update(ret='r', props=['C06', 'C03', 'C07'], loops={1: ITER('oq3_it1', '\n    oq3_v1@.len() + oq3_it1.rest().len() == indexed_identifier.sp_index_operators().len(),')},
+    zov['indexed_identifier_to_asg_type'].update(ret='r', props=['C06', 'C03', 'C07'], loops={1: ITER_NB('oq3_it1', '\n    oq3_v1@.len() + oq3_it1.rest().len() == indexed_identifier.sp_index_operators().len(),')},
         spec='ensures grows(*old(context), *final(context)), r.0.indexes@.len() == indexed_identifier.sp_index_operators().len(),     //@C06:indexes-keep-count')
     zov['block_expr_to_asg_stmt_list'].update(ret='r', props=['C06', 'C03', 'C07'], loops={1: ITER('oq3_it1', '\n    !context.global(), oq3_v1@.len() + oq3_it1.rest().len() <= block.sp_statements().len(),')},
         spec=NONGLOBAL + 'ensures grows(*old(context), *final(context)), r@.len() <= block.sp_statements().len(),')
@@ -410,17 +412,32 @@ pub assume_specification<T: Clone, EE: Clone> [<Result<T, EE> as Clone>::clone] 
         spec='ensures grows(*old(context), *final(context)), (r is Some) == (inparam_list is Some), r is Some ==> r->Some_0@.len() == inparam_list->Some_0.sp_params().len(),     //@C09:one-symbol-per-parameter')
     zov['bind_typed_parameter_list'].update(ret='r', props=['C09', 'C07', 'C03'], loops={1: ITER('oq3_it1', '\n    oq3_v1@.len() + oq3_it1.rest().len() == param_list.sp_typed_params().len(),')},
         spec='ensures grows(*old(context), *final(context)), (r is Some) == (inparam_list is Some), r is Some ==> r->Some_0@.len() == inparam_list->Some_0.sp_typed_params().len(),     //@C09:one-symbol-per-parameter')
-    zov['stmt_to_asg_stmt'].update(ret='r', props=P, loops={1: ITER('oq3_it1')},
+    zov['stmt_to_asg_stmt'].update(ret='r', props=P, loops={1: ITER_NB('oq3_it1')},
         spec='requires stmt is Include ==> !old(context).global(),      // the `unreachable!` of the Include arm\nensures grows(*old(context), *final(context)),')
-    zov['expr_stmt_to_asg_stmt'].update(ret='r', props=P, loops={1: ITER('oq3_it1')})
+    zov['expr_stmt_to_asg_stmt'].update(ret='r', props=P, loops={1: ITER_NB('oq3_it1')})
+    zov['stmt_to_asg_stmt']['with_scope'] = open(os.path.join(REPO, CTX)).read()
+    A_ = lambda pred, label, tg='C07': 'proof { assert(%s(*old(context), *context)); }     //@%s:%s' % (pred, tg, label)
+    zov['stmt_to_asg_stmt']['ghost'] = [
+        ('let then_branch = block_or_stmt_to_asg_type(', 'before', A_('fresh_scope', 'then-body-in-own-scope')),
+        ('let else_branch =', 'before', A_('fresh_scope', 'else-body-in-own-scope')),
+        ('let loop_body = block_or_stmt_to_asg_type(while_stmt', 'before', A_('fresh_scope', 'while-body-in-own-scope')),
+        ('let iterable = if let Some(set_expression)', 'before', A_('same_scopes', 'for-iterable-analysed-in-enclosing-scope')),
+        ('let loop_var_symbol_id = context.new_binding(', 'before', A_('fresh_scope', 'loop-variable-in-own-scope')),
+        ('let loop_body = block_or_stmt_to_asg_type(for_stmt', 'before', A_('one_scope_deeper', 'for-body-in-loop-variable-scope')),
+        ('let statements = block_expr_to_asg_stmt_list(case_expr', 'before', A_('fresh_scope', 'case-body-in-own-scope')),
+        ('let default_statements =', 'before', A_('fresh_scope', 'default-body-in-own-scope')),
+        ('let params = bind_parameter_list(gate.angle_params()', 'before', A_('fresh_scope', 'gate-parameters-in-own-scope')),
+        ('let gate_name_symbol_id = context.new_binding(', 'before', A_('same_scopes', 'gate-name-bound-in-enclosing-scope-after-body')),
+        ('let params = bind_typed_parameter_list(', 'before', A_('fresh_scope', 'subroutine-parameters-in-own-scope')),
+        ('let return_type = match', 'before', A_('same_scopes', 'return-type-analysed-outside-subroutine-scope', 'C09,C07')),
+        ('let def_name_symbol_id = context.new_binding(', 'before', A_('same_scopes', 'subroutine-name-bound-in-enclosing-scope-after-body')),
+    ]
     D3_OLD = """
         .arg_list()
         .map(|ex| expression_list_to_asg_texpr(ex.expression_list().unwrap(), context));"""
     zov['gate_call_expr_to_asg_stmt'] = dict(closures=True)
     zov['call_expr_to_asg_texpr'] = dict(closures=True)
-    import os
     from vlib.rustsrc import RustFile
-    from vlib.unit import REPO
     rfz = RustFile(os.path.join(REPO, S2S))
     for fn in sorted({g[0] for g in PANIC_GUARDS} | {g[0] for g in GHOST_ASSUMES}):
         it = rfz.find_fn(fn, None, 0)
@@ -583,7 +600,14 @@ ensures
     HAS_CTX = re.compile(r'\bcontext\s*:\s*&mut\s+Context')
     SCOPED = '\n    scoped(*old(context), *final(context)),     //@C03,C07:scopes-balanced\n    '
 
-    def ctx_frame(spec):
+    # functions that analyse expressions / types / operands: they never declare anything
+    NOBIND = {'expr_to_asg_texpr', 'lookup_identifier', 'gate_operand_to_asg_texpr', 'designator_to_asg', 'scalar_type_to_type', 'param_type_to_type',
+              'paren_expr_to_asg_texpr', 'range_expression_to_asg_type', 'set_expression_to_asg_type', 'index_operator_to_asg_type',
+              'expression_list_to_asg_type', 'expression_list_to_asg_texpr', 'qubit_list_to_asg_texpr', 'call_expr_to_asg_texpr',
+              'indexed_identifier_to_asg_type', 'gate_call_expr_to_asg_stmt', 'assignment_stmt_to_asg_stmt', 'expr_stmt_to_asg_stmt'}
+    NOBIND_CLAUSE = 'same_scopes(*old(context), *final(context)),     //@C07:only-declarations-bind\n    '
+
+    def ctx_frame(spec, fn=None):
         # every analyser function: the symbol table is well formed on entry, and on exit the same scopes
         # are open, outer scopes untouched, the current one only extended
         spec = (spec or '').strip('\n')
@@ -593,6 +617,8 @@ ensures
             spec = re.sub(r'((?:^|\n)\s*ensures\b)', lambda m_: m_.group(1) + SCOPED, spec, count=1)
         else:
             spec = spec + ('\n' if spec else '') + 'ensures' + SCOPED
+        if fn in NOBIND:
+            spec = spec.replace(SCOPED, SCOPED + NOBIND_CLAUSE, 1)
         if re.match(r'\s*requires\b', spec):
             spec = re.sub(r'^(\s*requires\b)', r'\1 old(context).wf(),', spec, count=1)
         else:
@@ -601,7 +627,7 @@ ensures
 
     def dflt(q, sig):
         if HAS_CTX.search(sig):
-            return dict(props=P, nodecreases=True, ghost=[('{', 'after', SEED)], spec=ctx_frame(''))
+            return dict(props=P, nodecreases=True, ghost=[('{', 'after', SEED)], spec=ctx_frame('', q))
         return dict(props=P, nodecreases=True, ghost=[('{', 'after', 'broadcast use sema_lemmas;')])
     rfz2 = RustFile(os.path.join(REPO, S2S))
     for fn_, kw_ in zov.items():
@@ -612,7 +638,7 @@ ensures
             kw_['ghost'] = [head] + list(kw_.get('ghost', []))
             kw_.setdefault('nodecreases', True)
             if HAS_CTX.search(sig_):
-                kw_['spec'] = ctx_frame(kw_.get('spec'))
+                kw_['spec'] = ctx_frame(kw_.get('spec'), fn_)
     z.ingest(overrides=zov, skip=S2S_SKIP, only_kinds=('fn',), default=dflt)
     U.assumed_parser = (['%s::%s() returns Some — %s' % (k[0], k[1], v[1]) for k, v in sorted(ACC_SOME.items()) if v[0] == AP]
                         + ['%s::%s(): %s — %s' % (k[0], k[1], v[1], v[2]) for k, v in sorted(ACC_CUSTOM.items())]
